@@ -43,6 +43,7 @@ def run(ctx) -> None:
     rep.rule("C01.R4", "first production of a name advances its version", floor=1)
     rep.rule("C01.R5", "tuple returns are unpacked positionally after a length check", floor=2)
     rep.rule("C01.R6", "a node records the input versions of the snapshot it actually consumed", floor=4)
+    rep.rule("C01.R8", "a function node's output is the object its function returned: the executors transform the result only by awaiting a coroutine and by materialising a declared generator", floor=2)
     rep.rule("C01.R7", "signature defaults are looked up under the current (renamed) parameter name; same-call renames do not chain", floor=4)
 
     gvs = db.func("runners._shared.helpers.get_value_source")
@@ -200,6 +201,43 @@ def run(ctx) -> None:
         rep.add("C01.R7", f"CallableMixin.{mname}:reads-defaults-table", ok, m.loc() if m else cm.loc(), "looks the current name up in the defaults table" if ok else "does not consult the defaults table keyed by current names")
     check_batch_isolation(ctx, "C01.R7", (bfm,))
 
+    # ---- R8 ---------------------------------------------------------------------
+    from sa.model import is_user_func_call
+    from .common import enclosing_facts
+
+    n8 = 0
+    for ci in db.classes.values():
+        if ".executors.function_node" not in ci.module.name:
+            continue
+        for m in ci.methods.values():
+            for c in db.calls_in(m):
+                if not is_user_func_call(db, c, m):
+                    continue
+                st = c._parent if isinstance(getattr(c, "_parent", None), ast.Assign) else None  # type: ignore[attr-defined]
+                rv = st.targets[0].id if st is not None and isinstance(st.targets[0], ast.Name) else None
+                n8 += 1
+                if rv is None:
+                    rep.bad("C01.R8", f"{m.qname}:result-transformations", m.loc(), "the function's result is not bound to a local")
+                    continue
+                bad = []
+                for d in db.local_defs(m).get(rv, []):
+                    if d is st:
+                        continue
+                    facts = enclosing_facts(d)
+                    allowed = False
+                    for a, pol in facts:
+                        t = src(a)
+                        if pol and isinstance(a, ast.Call) and (dotted(a.func) or "").split(".")[-1] == "iscoroutine" and a.args and src(a.args[0]) == rv and isinstance(getattr(d, "value", None), ast.Await):
+                            allowed = True  # result of an async def node function
+                        if pol and t.endswith(".is_generator") or pol and t.endswith(".is_async"):
+                            allowed = True  # the node's declared mode
+                    if not allowed:
+                        bad.append(d)
+                ok = not bad
+                rep.add("C01.R8", f"{m.qname}:result-transformations", ok, f"{m.module.rel}:{bad[0].lineno if bad else c.lineno}", "the result is rebound only when it is the coroutine of an async node function (awaited) or under the node's declared generator mode" if ok else f"'{src(bad[0])[:70]}' transforms the function's result under a test on the *value's* kind ({[src(a) for a, _ in enclosing_facts(bad[0])]}): a node that returns an awaitable/generator object as its value gets a different output than under the other runner")
+    if n8 < 2:
+        raise AnalysisError(f"only {n8} function executors with a user call found")
+
     # ---- R5 ---------------------------------------------------------------------
     wo = db.func("runners._shared.helpers.wrap_outputs")
     from sa.pattern import solve
@@ -273,6 +311,7 @@ def _k(lst, x) -> int:
 HP = "src/hypergraph/runners/_shared/helpers.py"
 TY = "src/hypergraph/runners/_shared/types.py"
 VARIANTS = [
+    Variant("async-executor-awaits-any-awaitable", "src/hypergraph/runners/async_/executors/function_node.py", replace_once("        if inspect.iscoroutine(result):", "        if inspect.isawaitable(result):"), {"C01.R8"}),
     Variant("async-versions-from-new-state", "src/hypergraph/runners/async_/superstep.py", replace_once("input_versions = {param: state.get_version(param) for param in node.inputs}", "input_versions = {param: new_state.get_version(param) for param in node.inputs}"), {"C01.R6"}),
     Variant("bound-before-state", HP, replace_once("    # 1. Edge value (from upstream node output)\n    if param in state.values:\n        return (ValueSource.EDGE, state.values[param])\n\n    # 2. Input value (from run() call)\n    if param in provided_values:\n        return (ValueSource.PROVIDED, provided_values[param])\n\n    # 3. Bound value (from graph.bind()) - check both graph and GraphNode\n    if param in graph.inputs.bound:\n        return (ValueSource.BOUND, graph.inputs.bound[param])\n", "    # 3. Bound value (from graph.bind()) - check both graph and GraphNode\n    if param in graph.inputs.bound:\n        return (ValueSource.BOUND, graph.inputs.bound[param])\n\n    # 1. Edge value (from upstream node output)\n    if param in state.values:\n        return (ValueSource.EDGE, state.values[param])\n\n    # 2. Input value (from run() call)\n    if param in provided_values:\n        return (ValueSource.PROVIDED, provided_values[param])\n"), {"C01.R1"}),
     Variant("twin-provided-bound-swapped", HP, replace_once("    # 2. Input value (from run() call)\n    if param in provided_values:\n        return (ValueSource.PROVIDED, provided_values[param])\n\n    # 3. Bound value (from graph.bind()) - check both graph and GraphNode\n    if param in graph.inputs.bound:\n        return (ValueSource.BOUND, graph.inputs.bound[param])\n", "    # 3. Bound value (from graph.bind()) - check both graph and GraphNode\n    if param in graph.inputs.bound:\n        return (ValueSource.BOUND, graph.inputs.bound[param])\n\n    # 2. Input value (from run() call)\n    if param in provided_values:\n        return (ValueSource.PROVIDED, provided_values[param])\n"), set()),
